@@ -460,7 +460,7 @@ fn cti_worlds(tier: Tier) -> Vec<(Cti, usize)> {
     let lists: Vec<Vec<u32>> = if th {
         vec![vec![1], vec![2], vec![1, 2], vec![2, 3], vec![3, 2, 1], vec![], vec![1, 1]]
     } else {
-        vec![vec![1], vec![1, 2], vec![3, 2], vec![], vec![1, 1]]
+        vec![vec![1], vec![1, 2], vec![3, 2], vec![3, 2, 1], vec![], vec![1, 1]]
     };
     vec![
         (
@@ -468,12 +468,12 @@ fn cti_worlds(tier: Tier) -> Vec<(Cti, usize)> {
                 name: "claim-topics-and-issuers",
                 seeds: vec![CtiSeed::Empty],
                 topics: vec![1, 2, 3],
-                issuers: if th { vec![0, 1, 2] } else { vec![0, 1] },
+                issuers: vec![0, 1, 2],
                 lists,
                 probe_topics: vec![],
                 probe_issuers: vec![],
             },
-            tier.pick(5, 6),
+            tier.pick(5, 7),
         ),
         (
             Cti {
@@ -1224,6 +1224,1022 @@ fn binder_worlds(tier: Tier) -> Vec<(Binder, usize)> {
 }
 
 // ==========================================================================================
+// (4) documents: bucketed map name -> (uri, hash, timestamp)
+
+const DOC_BUCKET: usize = 50;
+const MAX_DOCS: usize = 5_000;
+const MAX_URI: u32 = 200;
+
+use stellar_tokens::rwa::extensions::doc_manager as dm;
+
+#[derive(Clone, Debug, PartialEq, Eq)]
+enum DocOp {
+    /// set_document(name, variant) executed at ledger START + 1 + at (at = depth of the step)
+    Set { name: u16, var: u8, at: u32 },
+    /// set_document with a URI of `len` characters (probe, never extended)
+    SetUri { name: u16, len: u32, at: u32 },
+    Remove(u16),
+}
+
+type DocVal = (String, u8, u64); // uri, first byte of the hash, timestamp
+
+struct Docs {
+    name: &'static str,
+    /// number of filler documents (ids 100..) in each seed
+    seeds: Vec<usize>,
+    universe: Vec<u16>,
+    vars: Vec<u8>,
+    uri_probes: bool,
+    full_index_scan_up_to: usize,
+}
+
+struct DocInst {
+    e: Env,
+    c: Address,
+    fillers: usize,
+}
+
+fn doc_name(e: &Env, id: u16) -> BytesN<32> {
+    let mut b = [0x5du8; 32];
+    b[0] = (id & 0xff) as u8;
+    b[1] = (id >> 8) as u8;
+    BytesN::from_array(e, &b)
+}
+
+fn doc_id(n: &BytesN<32>) -> Result<u16, Violation> {
+    let b = n.to_array();
+    ensure!(b[2..].iter().all(|x| *x == 0x5d), "outside-universe", "a document name that was never used is listed");
+    Ok(b[0] as u16 | ((b[1] as u16) << 8))
+}
+
+fn doc_var(var: u8) -> (String, u8) {
+    match var {
+        0 => ("ipfs://a".into(), 1),
+        1 => ("https://example.org/bb".into(), 2),
+        _ => (format!("v{var}"), var),
+    }
+}
+
+fn set_time(e: &Env, seq: u32) {
+    e.ledger().with_mut(|li| {
+        li.sequence_number = seq;
+        li.timestamp = 1_700_000_000 + (seq as u64) * 5;
+    });
+}
+
+impl Docs {
+    /// Seed with `fillers` documents. `direct` writes the entries straight into contract storage
+    /// (through `set_document` the 4 998-document capacity seed costs seconds per instance because
+    /// the test host's storage map copies itself on every write); the layout used is validated
+    /// by `direct_seed_is_faithful` before the capacity world is explored.
+    fn build(&self, fillers: usize, direct: bool) -> (DocInst, BTreeMap<u16, DocVal>) {
+        let e = envx::mk_env(START);
+        let c = e.register(wrap::DocWrap, ());
+        let i = DocInst { e, c, fillers };
+        let e = &i.e;
+        let mut m = BTreeMap::new();
+        let fill = |direct: bool, m: &mut BTreeMap<u16, DocVal>| {
+            let mut bucket: SVec<(BytesN<32>, dm::Document)> = SVec::new(e);
+            for k in 0..fillers {
+                // fillers get distinct timestamps where cheap (the last 200 of them)
+                let seq = START - (fillers - k).min(200) as u32;
+                let ts = 1_700_000_000 + (seq as u64) * 5;
+                let id = 100 + k as u16;
+                let uri = format!("doc://{id}");
+                let h = (k % 251) as u8;
+                if direct {
+                    let name = doc_name(e, id);
+                    let doc = dm::Document { uri: SString::from_str(e, &uri), document_hash: BytesN::from_array(e, &[h; 32]), timestamp: ts };
+                    bucket.push_back((name.clone(), doc));
+                    e.storage().persistent().set(&dm::DocumentStorageKey::Index(name), &(k as u32));
+                    if bucket.len() as usize == DOC_BUCKET || k + 1 == fillers {
+                        e.storage().persistent().set(&dm::DocumentStorageKey::Bucket((k / DOC_BUCKET) as u32), &bucket);
+                        bucket = SVec::new(e);
+                    }
+                } else {
+                    assert!(self.set(&i, id, &uri, h, seq), "seed construction: set_document failed");
+                }
+                m.insert(id, (uri, h, ts));
+            }
+            if direct {
+                e.storage().persistent().set(&dm::DocumentStorageKey::Count, &(fillers as u32));
+            }
+        };
+        if direct {
+            e.as_contract(&i.c, || fill(true, &mut m));
+        } else {
+            fill(false, &mut m);
+        }
+        set_time(e, START);
+        (i, m)
+    }
+
+    fn direct_seed_is_faithful(&self) -> bool {
+        let (a, _) = self.build(120, false);
+        let (b, _) = self.build(120, true);
+        let same = envx::storage_digest(&a.e, false) == envx::storage_digest(&b.e, false);
+        let n: Option<u32> = getv(&b.e, &b.c, "get_document_count", no_args(&b.e));
+        same && n == Some(120)
+    }
+
+    fn set(&self, i: &DocInst, name: u16, uri: &str, h: u8, seq: u32) -> bool {
+        let e = &i.e;
+        set_time(e, seq);
+        let args: SVec<Val> = (doc_name(e, name), SString::from_str(e, uri), BytesN::<32>::from_array(e, &[h; 32])).into_val(e);
+        call_mocked(e, &i.c, "set_document", args).is_ok()
+    }
+
+    fn call(&self, i: &DocInst, op: &DocOp) -> bool {
+        match op {
+            DocOp::Set { name, var, at } => {
+                let (u, h) = doc_var(*var);
+                self.set(i, *name, &u, h, START + 1 + at)
+            }
+            DocOp::SetUri { name, len, at } => self.set(i, *name, &"x".repeat(*len as usize), 9, START + 1 + at),
+            DocOp::Remove(name) => call_mocked(&i.e, &i.c, "remove_document", (doc_name(&i.e, *name),).into_val(&i.e)).is_ok(),
+        }
+    }
+
+    fn expect(&self, m: &BTreeMap<u16, DocVal>, op: &DocOp) -> Ex {
+        match op {
+            DocOp::Remove(n) => {
+                if m.contains_key(n) {
+                    must(true, "valid-op-accepted", format!("document {n} exists"))
+                } else {
+                    must(false, "absent-removal-refused", format!("document {n} does not exist"))
+                }
+            }
+            DocOp::Set { name, .. } | DocOp::SetUri { name, .. } => {
+                let len = match op {
+                    DocOp::SetUri { len, .. } => *len,
+                    _ => 1,
+                };
+                if len > MAX_URI {
+                    must(false, "limit-exact", format!("the URI has {len} characters and the documented maximum is {MAX_URI}"))
+                } else if m.contains_key(name) {
+                    must(true, if len == MAX_URI { "limit-exact" } else { "valid-op-accepted" }, format!("document {name} exists and is updated"))
+                } else if m.len() >= MAX_DOCS {
+                    must(false, "limit-exact", format!("{} documents are stored and the documented maximum is {MAX_DOCS}", m.len()))
+                } else {
+                    must(
+                        true,
+                        if len == MAX_URI { "limit-exact" } else { add_oracle(m.len(), MAX_DOCS) },
+                        format!("document {name} is new and {} of at most {MAX_DOCS} documents are stored", m.len()),
+                    )
+                }
+            }
+        }
+    }
+
+    fn val_of(d: &dm::Document) -> DocVal {
+        (d.uri.to_string(), d.document_hash.to_array()[0], d.timestamp)
+    }
+
+    fn probes(&self, i: &DocInst) -> Vec<u16> {
+        let mut p = self.universe.clone();
+        if i.fillers > 0 {
+            p.push(100);
+            p.push(100 + i.fillers as u16 - 1);
+            p.push(100 + (i.fillers as u16) / 2);
+        }
+        p.sort();
+        p.dedup();
+        p
+    }
+
+    fn observe(&self, i: &DocInst, m: &BTreeMap<u16, DocVal>, cx: &mut StepCtx<Self>) -> Result<(), Violation> {
+        let e = &i.e;
+        let mut n = 0u64;
+        let count: u32 = getv(e, &i.c, "get_document_count", no_args(e)).ok_or_else(|| Violation::new("getter", "get_document_count failed".into()))?;
+        ensure!(count as usize == m.len(), "document-count", "get_document_count = {}, model {}", count, m.len());
+        n += 1;
+        for x in self.probes(i) {
+            let d: Option<dm::Document> = getv(e, &i.c, "get_document", (doc_name(e, x),).into_val(e));
+            let got = d.as_ref().map(Self::val_of);
+            n += 1;
+            ensure!(got.as_ref() == m.get(&x), "get-document", "get_document({}) = {:?} (None = refused), model {:?}", x, got, m.get(&x));
+        }
+        // buckets: union is the map, no name twice
+        let buckets = (count as usize).div_ceil(DOC_BUCKET) as u32;
+        let mut listed: Vec<(u16, DocVal)> = vec![];
+        for b in 0..buckets + 2 {
+            let v: SVec<(BytesN<32>, dm::Document)> =
+                getv(e, &i.c, "get_documents", (b,).into_val(e)).ok_or_else(|| Violation::new("getter", format!("get_documents({b}) failed")))?;
+            n += 1;
+            ensure!(b < buckets || v.is_empty(), "get-documents", "get_documents({}) is not empty although {} documents fit in {} buckets", b, count, buckets);
+            for (nm, d) in v.iter() {
+                listed.push((doc_id(&nm)?, Self::val_of(&d)));
+            }
+        }
+        as_set(listed.iter().map(|x| x.0), "get_documents over all buckets")?;
+        let got: BTreeMap<u16, DocVal> = listed.into_iter().collect();
+        ensure!(got == *m, "get-documents", "the buckets hold {} documents, the model {}; first difference: {:?}", got.len(), m.len(), first_diff(&got, m));
+        // index access
+        let idxs: Vec<u32> = if (count as usize) <= self.full_index_scan_up_to {
+            (0..count).collect()
+        } else {
+            let b = DOC_BUCKET as u32;
+            let last_edge = (count / b) * b;
+            let mut s = BTreeSet::new();
+            for edge in [0, b, 2 * b, last_edge.saturating_sub(b), last_edge, count] {
+                for d in [edge.saturating_sub(2), edge.saturating_sub(1), edge, edge + 1] {
+                    if d < count {
+                        s.insert(d);
+                    }
+                }
+            }
+            s.into_iter().collect()
+        };
+        let mut by_index: Vec<(u16, DocVal)> = vec![];
+        for ix in &idxs {
+            let r: Option<(BytesN<32>, dm::Document)> = getv(e, &i.c, "get_document_by_index", (*ix,).into_val(e));
+            n += 1;
+            let (nm, d) = r.ok_or_else(|| Violation::new("index-access", format!("get_document_by_index({ix}) refused although {count} documents are stored")))?;
+            by_index.push((doc_id(&nm)?, Self::val_of(&d)));
+        }
+        as_set(by_index.iter().map(|x| x.0), "get_document_by_index over the scanned indices")?;
+        for (k, v) in &by_index {
+            ensure!(m.get(k) == Some(v), "index-access", "index access returned document {} = {:?}, model {:?}", k, v, m.get(k));
+        }
+        if idxs.len() == count as usize {
+            ensure!(by_index.len() == m.len(), "index-access", "indices 0..{} enumerate {} documents, model {}", count, by_index.len(), m.len());
+        }
+        let past: Option<(BytesN<32>, dm::Document)> = getv(e, &i.c, "get_document_by_index", (count,).into_val(e));
+        n += 1;
+        ensure!(past.is_none(), "index-access", "get_document_by_index({}) answered although only {} documents are stored", count, count);
+        cx.stats.count("getter-comparisons", n);
+        Ok(())
+    }
+}
+
+fn first_diff<K: Ord + Clone + Debug, V: PartialEq + Clone + Debug>(a: &BTreeMap<K, V>, b: &BTreeMap<K, V>) -> Option<(K, Option<V>, Option<V>)> {
+    for k in a.keys().chain(b.keys()) {
+        if a.get(k) != b.get(k) {
+            return Some((k.clone(), a.get(k).cloned(), b.get(k).cloned()));
+        }
+    }
+    None
+}
+
+impl World for Docs {
+    type Op = DocOp;
+    type Model = BTreeMap<u16, DocVal>;
+    type Inst = DocInst;
+
+    fn name(&self) -> String {
+        self.name.into()
+    }
+    fn seeds(&self) -> usize {
+        self.seeds.len()
+    }
+    fn seed_name(&self, s: usize) -> String {
+        format!("{} documents stored", self.seeds[s])
+    }
+
+    fn fresh(&self, seed: usize) -> (DocInst, BTreeMap<u16, DocVal>) {
+        let n = self.seeds[seed];
+        self.build(n, n > DIRECT_SEED_ABOVE)
+    }
+
+    fn ops(&self, i: &DocInst, _m: &BTreeMap<u16, DocVal>, d: usize) -> Vec<DocOp> {
+        let at = d as u32;
+        let mut v = vec![];
+        for x in &self.universe {
+            for var in &self.vars {
+                v.push(DocOp::Set { name: *x, var: *var, at });
+            }
+        }
+        for x in self.probes(i) {
+            v.push(DocOp::Remove(x));
+        }
+        if self.uri_probes {
+            v.push(DocOp::SetUri { name: self.universe[0], len: MAX_URI, at });
+            v.push(DocOp::SetUri { name: self.universe[0], len: MAX_URI + 1, at });
+        }
+        v
+    }
+
+    fn kind(&self, op: &DocOp) -> String {
+        match op {
+            DocOp::Set { .. } | DocOp::SetUri { .. } => "docs.set_document",
+            DocOp::Remove(_) => "docs.remove_document",
+        }
+        .into()
+    }
+
+    fn leaf_only(&self, op: &DocOp) -> bool {
+        matches!(op, DocOp::SetUri { .. })
+    }
+
+    fn apply(&self, i: &mut DocInst, op: &DocOp) {
+        self.call(i, op);
+    }
+
+    fn step(&self, i: &mut DocInst, m: &mut BTreeMap<u16, DocVal>, op: &DocOp, cx: &mut StepCtx<Self>) -> Result<bool, Violation> {
+        let x = self.expect(m, op);
+        let ok = self.call(i, op);
+        check_outcome(ok, &x, op)?;
+        if ok {
+            let ts = i.e.ledger().timestamp();
+            match op {
+                DocOp::Set { name, var, .. } => {
+                    let (u, h) = doc_var(*var);
+                    m.insert(*name, (u, h, ts));
+                }
+                DocOp::SetUri { name, len, .. } => {
+                    m.insert(*name, ("x".repeat(*len as usize), 9, ts));
+                }
+                DocOp::Remove(name) => {
+                    m.remove(name);
+                }
+            }
+            if x.oracle == "limit-exact" {
+                cx.stats.count("accepted-at-limit", 1);
+            }
+            self.observe(i, m, cx)?;
+        } else if x.ok == Some(false) {
+            cx.stats.count(&format!("refused.{}", x.oracle), 1);
+        }
+        Ok(ok)
+    }
+
+    fn key(&self, i: &DocInst) -> [u8; 32] {
+        envx::storage_digest(&i.e, false)
+    }
+    fn model_digest(&self, m: &BTreeMap<u16, DocVal>) -> u64 {
+        dig(m)
+    }
+}
+
+fn doc_worlds(tier: Tier) -> Vec<(Docs, usize)> {
+    let th = tier == Tier::Thorough;
+    let mut v = vec![
+        (
+            Docs { name: "documents", seeds: vec![0], universe: vec![0, 1, 2], vars: vec![0, 1], uri_probes: true, full_index_scan_up_to: 1000 },
+            tier.pick(5, 6),
+        ),
+        (
+            Docs {
+                name: "documents-bucket-edge",
+                seeds: if th { vec![49, 50, 51, 99, 100] } else { vec![49, 50, 51] },
+                universe: vec![0, 1],
+                vars: vec![0],
+                uri_probes: false,
+                full_index_scan_up_to: 1000,
+            },
+            tier.pick(3, 4),
+        ),
+    ];
+    if th {
+        // thorough tier only: one instance of the 4 998-document seed costs several seconds (the
+        // test host's storage map is copied on every write and holds one entry per document)
+        v.push((
+            Docs {
+                name: "documents-capacity",
+                seeds: vec![MAX_DOCS - 2],
+                universe: vec![0, 1, 2],
+                vars: vec![0],
+                uri_probes: false,
+                full_index_scan_up_to: 0,
+            },
+            2,
+        ));
+    }
+    v
+}
+
+// ==========================================================================================
+// (5) identity registry storage: account -> (identity, type, country entries), recovery links
+
+const MAX_COUNTRY: usize = 15;
+
+use stellar_tokens::rwa::identity_registry_storage as irs;
+
+#[derive(Clone, Debug, PartialEq, Eq)]
+enum IrsOp {
+    Add { acc: u16, ident: u16, org: bool, cds: Vec<u8> },
+    Modify(u16, u16),
+    Remove(u16),
+    Recover(u16, u16),
+    AddCd(u16, Vec<u8>),
+    ModCd(u16, u32, u8),
+    DelCd(u16, u32),
+}
+
+#[derive(Clone, Debug, Default, Hash, PartialEq)]
+struct IrsModel {
+    /// account -> (identity, is organization, country entries in the order the registry lists them)
+    ids: BTreeMap<u16, (u16, bool, Vec<u8>)>,
+    /// old account -> new account, permanent
+    rec: BTreeMap<u16, u16>,
+}
+
+struct Irs {
+    name: &'static str,
+    /// seed: `Some(n)` = account 0 registered with identity 10 and n entries of variant 0
+    seeds: Vec<Option<usize>>,
+    accounts: Vec<u16>,
+    idents: Vec<u16>,
+    adds: Vec<(u16, bool, Vec<u8>)>, // (identity, org, entries) offered for every account
+    add_cds: Vec<Vec<u8>>,
+    mod_cd: u8,
+}
+
+struct IrsInst {
+    e: Env,
+    c: Address,
+    book: Book,
+}
+
+fn cd_of(e: &Env, v: u8) -> irs::CountryData {
+    use irs::{CountryData, CountryRelation, IndividualCountryRelation as I, OrganizationCountryRelation as O};
+    match v {
+        0 => CountryData { country: CountryRelation::Individual(I::Residence(840)), metadata: None },
+        1 => CountryData { country: CountryRelation::Organization(O::Incorporation(276)), metadata: None },
+        _ => {
+            let mut md = SMap::new(e);
+            md.set(soroban_sdk::Symbol::new(e, "note"), SString::from_str(e, "v"));
+            CountryData { country: CountryRelation::Individual(I::Citizenship(4 + v as u32)), metadata: Some(md) }
+        }
+    }
+}
+
+fn cd_id(e: &Env, d: &irs::CountryData) -> Result<u8, Violation> {
+    for v in 0..6u8 {
+        if cd_of(e, v) == *d {
+            return Ok(v);
+        }
+    }
+    Err(Violation::new("outside-universe", "a country data entry that was never stored is listed".into()))
+}
+
+fn sorted(mut v: Vec<u8>) -> Vec<u8> {
+    v.sort();
+    v
+}
+
+impl Irs {
+    fn cds(e: &Env, l: &[u8]) -> SVec<irs::CountryData> {
+        let mut v = SVec::new(e);
+        for x in l {
+            v.push_back(cd_of(e, *x));
+        }
+        v
+    }
+
+    fn call(&self, i: &IrsInst, op: &IrsOp) -> bool {
+        let e = &i.e;
+        let a = |x: &u16| i.book.a(*x);
+        let (f, args): (&str, SVec<Val>) = match op {
+            IrsOp::Add { acc, ident, org, cds } => {
+                let t = if *org { irs::IdentityType::Organization } else { irs::IdentityType::Individual };
+                ("add_identity", (a(acc), a(ident), t, Self::cds(e, cds)).into_val(e))
+            }
+            IrsOp::Modify(acc, ident) => ("modify_identity", (a(acc), a(ident)).into_val(e)),
+            IrsOp::Remove(acc) => ("remove_identity", (a(acc),).into_val(e)),
+            IrsOp::Recover(o, n) => ("recover_identity", (a(o), a(n)).into_val(e)),
+            IrsOp::AddCd(acc, l) => ("add_country_data_entries", (a(acc), Self::cds(e, l)).into_val(e)),
+            IrsOp::ModCd(acc, ix, v) => ("modify_country_data", (a(acc), *ix, cd_of(e, *v)).into_val(e)),
+            IrsOp::DelCd(acc, ix) => ("delete_country_data", (a(acc), *ix).into_val(e)),
+        };
+        call_mocked(e, &i.c, f, args).is_ok()
+    }
+
+    fn expect(&self, m: &IrsModel, op: &IrsOp) -> Ex {
+        let absent = |acc: &u16| must(false, "absent-removal-refused", format!("account {acc} has no stored identity"));
+        match op {
+            IrsOp::Add { acc, cds, .. } => {
+                if m.rec.contains_key(acc) {
+                    must(false, "recovered-never-registered-again", format!("account {acc} was recovered to {:?}", m.rec.get(acc)))
+                } else if cds.is_empty() {
+                    must(false, "invalid-input-refused", "the country list is empty")
+                } else if cds.len() > MAX_COUNTRY {
+                    must(false, "limit-exact", format!("{} country entries exceed the documented maximum {MAX_COUNTRY}", cds.len()))
+                } else if m.ids.contains_key(acc) {
+                    must(false, "duplicate-refused", format!("account {acc} already has an identity"))
+                } else {
+                    must(
+                        true,
+                        if cds.len() == MAX_COUNTRY { "limit-exact" } else { "valid-op-accepted" },
+                        format!("account {acc} is unregistered, never recovered, and brings {} (<= {MAX_COUNTRY}) country entries", cds.len()),
+                    )
+                }
+            }
+            IrsOp::Modify(acc, _) => {
+                if m.ids.contains_key(acc) {
+                    must(true, "valid-op-accepted", format!("account {acc} has an identity"))
+                } else {
+                    absent(acc)
+                }
+            }
+            IrsOp::Remove(acc) => {
+                if m.ids.contains_key(acc) {
+                    must(true, "valid-op-accepted", format!("account {acc} has an identity"))
+                } else {
+                    absent(acc)
+                }
+            }
+            IrsOp::Recover(o, n) => {
+                if m.rec.contains_key(n) {
+                    must(false, "recovered-never-registered-again", format!("the new account {n} was itself recovered to {:?}", m.rec.get(n)))
+                } else if !m.ids.contains_key(o) {
+                    absent(o)
+                } else if m.ids.contains_key(n) {
+                    must(false, "duplicate-refused", format!("the new account {n} already has an identity"))
+                } else {
+                    must(true, "valid-op-accepted", format!("account {o} has an identity, account {n} has none and was never recovered"))
+                }
+            }
+            IrsOp::AddCd(acc, l) => match m.ids.get(acc) {
+                _ if l.is_empty() => must(false, "invalid-input-refused", "the country list is empty"),
+                None => absent(acc),
+                Some((_, _, cur)) => {
+                    if cur.len() + l.len() > MAX_COUNTRY {
+                        must(false, "limit-exact", format!("{} + {} country entries exceed the documented maximum {MAX_COUNTRY}", cur.len(), l.len()))
+                    } else {
+                        must(
+                            true,
+                            if cur.len() + l.len() == MAX_COUNTRY { "limit-exact" } else { "valid-op-accepted" },
+                            format!("{} + {} country entries do not exceed the documented maximum {MAX_COUNTRY}", cur.len(), l.len()),
+                        )
+                    }
+                }
+            },
+            IrsOp::ModCd(acc, ix, _) => match m.ids.get(acc) {
+                None => absent(acc),
+                Some((_, _, cur)) => {
+                    if (*ix as usize) < cur.len() {
+                        must(true, "valid-op-accepted", format!("entry {ix} of account {acc} exists"))
+                    } else {
+                        must(false, "absent-removal-refused", format!("account {acc} has only {} entries", cur.len()))
+                    }
+                }
+            },
+            IrsOp::DelCd(acc, ix) => match m.ids.get(acc) {
+                None => absent(acc),
+                Some((_, _, cur)) => {
+                    if (*ix as usize) >= cur.len() {
+                        must(false, "absent-removal-refused", format!("account {acc} has only {} entries", cur.len()))
+                    } else if cur.len() == 1 {
+                        must(false, "invalid-input-refused", "the last country entry of an identity cannot be deleted (documented)")
+                    } else {
+                        must(true, "valid-op-accepted", format!("entry {ix} of account {acc} exists and is not the only one"))
+                    }
+                }
+            },
+        }
+    }
+
+    /// Model step. Country entries are a multiset: index-based edits refer to the order the
+    /// registry itself reported before the step (kept in the model), and the order after the step
+    /// is taken from the registry once the multiset has been checked (`observe`).
+    fn update(m: &mut IrsModel, op: &IrsOp) {
+        match op {
+            IrsOp::Add { acc, ident, org, cds } => {
+                m.ids.insert(*acc, (*ident, *org, cds.clone()));
+            }
+            IrsOp::Modify(acc, ident) => {
+                m.ids.get_mut(acc).unwrap().0 = *ident;
+            }
+            IrsOp::Remove(acc) => {
+                m.ids.remove(acc);
+            }
+            IrsOp::Recover(o, n) => {
+                let v = m.ids.remove(o).unwrap();
+                m.ids.insert(*n, v);
+                m.rec.insert(*o, *n);
+            }
+            IrsOp::AddCd(acc, l) => m.ids.get_mut(acc).unwrap().2.extend(l.iter().copied()),
+            IrsOp::ModCd(acc, ix, v) => m.ids.get_mut(acc).unwrap().2[*ix as usize] = *v,
+            IrsOp::DelCd(acc, ix) => {
+                m.ids.get_mut(acc).unwrap().2.remove(*ix as usize);
+            }
+        }
+    }
+
+    fn observe(&self, i: &IrsInst, m: &mut IrsModel, cx: &mut StepCtx<Self>) -> Result<(), Violation> {
+        let e = &i.e;
+        let mut n = 0u64;
+        for acc in &self.accounts {
+            let a = i.book.a(*acc);
+            let want = m.ids.get(acc).cloned();
+            let sid: Option<Address> = getv(e, &i.c, "stored_identity", (a.clone(),).into_val(e));
+            let sid = match sid {
+                Some(x) => Some(i.book.id(&x, "stored_identity")?),
+                None => None,
+            };
+            ensure!(sid == want.as_ref().map(|w| w.0), "stored-identity", "stored_identity({}) = {:?} (None = refused), model {:?}", acc, sid, want.as_ref().map(|w| w.0));
+            let prof: Option<irs::IdentityProfile> = getv(e, &i.c, "get_identity_profile", (a.clone(),).into_val(e));
+            let entries: SVec<irs::CountryData> =
+                getv(e, &i.c, "get_country_data_entries", (a.clone(),).into_val(e)).ok_or_else(|| Violation::new("getter", "get_country_data_entries failed".into()))?;
+            n += 3;
+            let mut listed = vec![];
+            for d in entries.iter() {
+                listed.push(cd_id(e, &d)?);
+            }
+            match (&prof, &want) {
+                (None, None) => ensure!(listed.is_empty(), "country-entries", "get_country_data_entries({}) lists {:?} although the account has no identity", acc, listed),
+                (Some(p), Some((_, org, cds))) => {
+                    ensure!((p.identity_type == irs::IdentityType::Organization) == *org, "identity-profile", "get_identity_profile({}) has the wrong identity type", acc);
+                    let mut pl = vec![];
+                    for d in p.countries.iter() {
+                        pl.push(cd_id(e, &d)?);
+                    }
+                    ensure!(pl == listed, "identity-profile", "get_identity_profile({}).countries = {:?} but get_country_data_entries = {:?}", acc, pl, listed);
+                    ensure!(sorted(listed.clone()) == sorted(cds.clone()), "country-entries", "get_country_data_entries({}) = {:?}, model (as a multiset) {:?}", acc, listed, cds);
+                    // index access: every entry exactly once, one past the end refused
+                    let mut by_index = vec![];
+                    for ix in 0..listed.len() as u32 {
+                        let d: Option<irs::CountryData> = getv(e, &i.c, "get_country_data", (a.clone(), ix).into_val(e));
+                        n += 1;
+                        let d = d.ok_or_else(|| Violation::new("index-access", format!("get_country_data({acc}, {ix}) refused although {} entries exist", listed.len())))?;
+                        by_index.push(cd_id(e, &d)?);
+                    }
+                    ensure!(sorted(by_index.clone()) == sorted(listed.clone()), "index-access", "get_country_data({}, 0..{}) = {:?}, entries {:?}", acc, listed.len(), by_index, listed);
+                    // adopt the registry's order for the next index-based edit
+                    m.ids.get_mut(acc).unwrap().2 = by_index;
+                }
+                (Some(_), None) => ensure!(false, "identity-profile", "get_identity_profile({}) answered although the account has no identity", acc),
+                (None, Some(_)) => ensure!(false, "identity-profile", "get_identity_profile({}) refused although the account has an identity", acc),
+            }
+            let past: Option<irs::CountryData> = getv(e, &i.c, "get_country_data", (a.clone(), listed.len() as u32).into_val(e));
+            ensure!(past.is_none(), "index-access", "get_country_data({}, {}) answered although only {} entries exist", acc, listed.len(), listed.len());
+            let r: Option<Option<Address>> = getv(e, &i.c, "get_recovered_to", (a.clone(),).into_val(e));
+            n += 2;
+            let r = r.ok_or_else(|| Violation::new("getter", "get_recovered_to failed".into()))?;
+            let r = match r {
+                Some(x) => Some(i.book.id(&x, "get_recovered_to")?),
+                None => None,
+            };
+            ensure!(r == m.rec.get(acc).copied(), "recovery-link-permanent", "get_recovered_to({}) = {:?}, model {:?}", acc, r, m.rec.get(acc));
+        }
+        cx.stats.count("getter-comparisons", n);
+        Ok(())
+    }
+}
+
+impl World for Irs {
+    type Op = IrsOp;
+    type Model = IrsModel;
+    type Inst = IrsInst;
+
+    fn name(&self) -> String {
+        self.name.into()
+    }
+    fn seeds(&self) -> usize {
+        self.seeds.len()
+    }
+    fn seed_name(&self, s: usize) -> String {
+        match self.seeds[s] {
+            None => "empty".into(),
+            Some(n) => format!("account 0 with {n} country entries"),
+        }
+    }
+
+    fn fresh(&self, seed: usize) -> (IrsInst, IrsModel) {
+        let e = envx::mk_env(START);
+        let c = e.register(wrap::IrsWrap, ());
+        let mut book = Book::new();
+        for x in self.accounts.iter().chain(self.idents.iter()) {
+            book.gen(&e, *x);
+        }
+        let i = IrsInst { e, c, book };
+        let mut m = IrsModel::default();
+        if let Some(n) = self.seeds[seed] {
+            let op = IrsOp::Add { acc: self.accounts[0], ident: self.idents[0], org: false, cds: vec![0; n] };
+            assert!(self.call(&i, &op), "seed construction: add_identity failed");
+            Self::update(&mut m, &op);
+        }
+        (i, m)
+    }
+
+    fn ops(&self, _i: &IrsInst, m: &IrsModel, _d: usize) -> Vec<IrsOp> {
+        let mut v = vec![];
+        for acc in &self.accounts {
+            for (ident, org, cds) in &self.adds {
+                v.push(IrsOp::Add { acc: *acc, ident: *ident, org: *org, cds: cds.clone() });
+            }
+        }
+        for acc in &self.accounts {
+            for ident in &self.idents {
+                v.push(IrsOp::Modify(*acc, *ident));
+            }
+        }
+        for acc in &self.accounts {
+            v.push(IrsOp::Remove(*acc));
+        }
+        for o in &self.accounts {
+            for n in &self.accounts {
+                v.push(IrsOp::Recover(*o, *n));
+            }
+        }
+        for acc in &self.accounts {
+            for l in &self.add_cds {
+                v.push(IrsOp::AddCd(*acc, l.clone()));
+            }
+            let len = m.ids.get(acc).map(|x| x.2.len()).unwrap_or(0) as u32;
+            let mut idx = vec![0, len.saturating_sub(1), len];
+            idx.dedup();
+            for ix in &idx {
+                v.push(IrsOp::ModCd(*acc, *ix, self.mod_cd));
+            }
+            for ix in &idx {
+                v.push(IrsOp::DelCd(*acc, *ix));
+            }
+        }
+        v
+    }
+
+    fn kind(&self, op: &IrsOp) -> String {
+        match op {
+            IrsOp::Add { .. } => "irs.add_identity",
+            IrsOp::Modify(..) => "irs.modify_identity",
+            IrsOp::Remove(_) => "irs.remove_identity",
+            IrsOp::Recover(..) => "irs.recover_identity",
+            IrsOp::AddCd(..) => "irs.add_country_data_entries",
+            IrsOp::ModCd(..) => "irs.modify_country_data",
+            IrsOp::DelCd(..) => "irs.delete_country_data",
+        }
+        .into()
+    }
+
+    fn apply(&self, i: &mut IrsInst, op: &IrsOp) {
+        self.call(i, op);
+    }
+
+    fn step(&self, i: &mut IrsInst, m: &mut IrsModel, op: &IrsOp, cx: &mut StepCtx<Self>) -> Result<bool, Violation> {
+        let x = self.expect(m, op);
+        let ok = self.call(i, op);
+        check_outcome(ok, &x, op)?;
+        if ok {
+            Self::update(m, op);
+            if x.oracle == "limit-exact" {
+                cx.stats.count("accepted-at-limit", 1);
+            }
+            self.observe(i, m, cx)?;
+        } else if x.ok == Some(false) {
+            cx.stats.count(&format!("refused.{}", x.oracle), 1);
+        }
+        Ok(ok)
+    }
+
+    fn key(&self, i: &IrsInst) -> [u8; 32] {
+        envx::storage_digest(&i.e, false)
+    }
+    fn model_digest(&self, m: &IrsModel) -> u64 {
+        dig(m)
+    }
+}
+
+fn irs_worlds(tier: Tier) -> Vec<(Irs, usize)> {
+    let th = tier == Tier::Thorough;
+    vec![
+        (
+            Irs {
+                name: "identity-registry",
+                seeds: vec![None],
+                accounts: vec![0, 1, 2],
+                idents: vec![10, 11],
+                adds: if th { vec![(10, false, vec![0]), (11, true, vec![0, 1]), (10, false, vec![])] } else { vec![(10, false, vec![0, 1]), (11, true, vec![])] },
+                add_cds: if th { vec![vec![2], vec![]] } else { vec![vec![2]] },
+                mod_cd: 3,
+            },
+            tier.pick(5, 6),
+        ),
+        (
+            Irs {
+                name: "identity-registry-country-limit",
+                seeds: vec![Some(MAX_COUNTRY - 1)],
+                accounts: vec![0, 1],
+                idents: vec![10],
+                adds: vec![(10, false, vec![1; MAX_COUNTRY]), (10, false, vec![1; MAX_COUNTRY + 1])],
+                add_cds: vec![vec![2], vec![2, 2]],
+                mod_cd: 3,
+            },
+            tier.pick(3, 4),
+        ),
+    ]
+}
+
+// ==========================================================================================
+// (6) identity claims: claim id(issuer, topic) -> claim, topic -> claim ids
+
+use stellar_tokens::rwa::identity_claims as ic;
+
+#[derive(Clone, Debug, PartialEq, Eq)]
+enum ClaimOp {
+    Add { iss: u16, topic: u32, var: u8 },
+    Remove { iss: u16, topic: u32 },
+}
+
+struct Claims {
+    name: &'static str,
+    /// issuers 0.. accept every claim; REJECTING rejects every claim
+    issuers: Vec<u16>,
+    topics: Vec<u32>,
+    vars: Vec<u8>,
+}
+
+const REJECTING: u16 = 9;
+
+struct ClaimInst {
+    e: Env,
+    c: Address,
+    book: Book,
+}
+
+type ClaimVal = (u32, Vec<u8>, Vec<u8>, String); // scheme, signature, data, uri
+
+fn claim_var(var: u8) -> ClaimVal {
+    (101 + var as u32, vec![0x50 + var; 64], vec![0xd0 + var; 5 + var as usize], format!("https://claims.example/{var}"))
+}
+
+impl Claims {
+    fn id_of(&self, i: &ClaimInst, iss: u16, topic: u32) -> BytesN<32> {
+        getv(&i.e, &i.c, "claim_id", (i.book.a(iss), topic).into_val(&i.e)).expect("claim_id")
+    }
+
+    /// `Ok(Some(id))` accepted with this returned claim id, `Ok(None)` refused
+    fn call(&self, i: &ClaimInst, op: &ClaimOp) -> Option<Option<BytesN<32>>> {
+        let e = &i.e;
+        match op {
+            ClaimOp::Add { iss, topic, var } => {
+                let (scheme, sig, data, uri) = claim_var(*var);
+                let args: SVec<Val> =
+                    (*topic, scheme, i.book.a(*iss), Bytes::from_slice(e, &sig), Bytes::from_slice(e, &data), SString::from_str(e, &uri)).into_val(e);
+                match call_mocked(e, &i.c, "add_claim", args) {
+                    Ok(v) => Some(Some(BytesN::<32>::try_from_val(e, &v).expect("claim id"))),
+                    Err(_) => None,
+                }
+            }
+            ClaimOp::Remove { iss, topic } => {
+                let id = self.id_of(i, *iss, *topic);
+                call_mocked(e, &i.c, "remove_claim", (id,).into_val(e)).ok().map(|_| None)
+            }
+        }
+    }
+
+    fn all_issuers(&self) -> Vec<u16> {
+        let mut v = self.issuers.clone();
+        v.push(REJECTING);
+        v
+    }
+
+    fn observe(&self, i: &ClaimInst, m: &BTreeMap<(u16, u32), u8>, cx: &mut StepCtx<Self>) -> Result<(), Violation> {
+        let e = &i.e;
+        let mut n = 0u64;
+        let mut topics = self.topics.clone();
+        topics.push(77);
+        let mut ids: BTreeMap<Vec<u8>, (u16, u32)> = BTreeMap::new();
+        for iss in self.all_issuers() {
+            for t in &topics {
+                let id = self.id_of(i, iss, *t);
+                let prev = ids.insert(id.to_array().to_vec(), (iss, *t));
+                ensure!(prev.is_none(), "claim-id", "claims ({}, {}) and {:?} share one claim id", iss, t, prev);
+                let c: Option<ic::Claim> = getv(e, &i.c, "get_claim", (id,).into_val(e));
+                n += 1;
+                match (c, m.get(&(iss, *t))) {
+                    (None, None) => {}
+                    (Some(c), Some(var)) => {
+                        let (scheme, sig, data, uri) = claim_var(*var);
+                        let same = c.topic == *t
+                            && c.scheme == scheme
+                            && c.issuer == i.book.a(iss)
+                            && c.signature == Bytes::from_slice(e, &sig)
+                            && c.data == Bytes::from_slice(e, &data)
+                            && c.uri == SString::from_str(e, &uri);
+                        ensure!(same, "get-claim", "get_claim(id({}, {})) does not hold the claim stored last (variant {})", iss, t, var);
+                    }
+                    (Some(_), None) => ensure!(false, "get-claim", "get_claim(id({}, {})) answered although no such claim is stored", iss, t),
+                    (None, Some(_)) => ensure!(false, "get-claim", "get_claim(id({}, {})) refused although the claim is stored", iss, t),
+                }
+            }
+        }
+        for t in &topics {
+            let v: SVec<BytesN<32>> =
+                getv(e, &i.c, "get_claim_ids_by_topic", (*t,).into_val(e)).ok_or_else(|| Violation::new("getter", "get_claim_ids_by_topic failed".into()))?;
+            n += 1;
+            let mut listed = vec![];
+            for id in v.iter() {
+                let k = ids.get(&id.to_array().to_vec()).ok_or_else(|| Violation::new("outside-universe", format!("get_claim_ids_by_topic({t}) lists an unknown claim id")))?;
+                listed.push(*k);
+            }
+            let got = as_set(listed, "get_claim_ids_by_topic")?;
+            let want: BTreeSet<(u16, u32)> = m.keys().filter(|k| k.1 == *t).copied().collect();
+            ensure!(got == want, "claim-ids-by-topic", "get_claim_ids_by_topic({}) = {:?}, model {:?}", t, got, want);
+        }
+        cx.stats.count("getter-comparisons", n);
+        Ok(())
+    }
+}
+
+impl World for Claims {
+    type Op = ClaimOp;
+    type Model = BTreeMap<(u16, u32), u8>;
+    type Inst = ClaimInst;
+
+    fn name(&self) -> String {
+        self.name.into()
+    }
+
+    fn fresh(&self, _seed: usize) -> (ClaimInst, Self::Model) {
+        let e = envx::mk_env(START);
+        let c = e.register(wrap::ClaimsWrap, ());
+        let mut book = Book::new();
+        for x in &self.issuers {
+            book.fwd.insert(*x, e.register(wrap::IssuerYes, ()));
+        }
+        book.fwd.insert(REJECTING, e.register(wrap::IssuerNo, ()));
+        (ClaimInst { e, c, book }, BTreeMap::new())
+    }
+
+    fn ops(&self, _i: &ClaimInst, _m: &Self::Model, _d: usize) -> Vec<ClaimOp> {
+        let mut v = vec![];
+        for iss in self.all_issuers() {
+            for t in &self.topics {
+                for var in &self.vars {
+                    if iss == REJECTING && *var != self.vars[0] {
+                        continue;
+                    }
+                    v.push(ClaimOp::Add { iss, topic: *t, var: *var });
+                }
+            }
+        }
+        for iss in self.all_issuers() {
+            for t in &self.topics {
+                v.push(ClaimOp::Remove { iss, topic: *t });
+            }
+        }
+        v
+    }
+
+    fn kind(&self, op: &ClaimOp) -> String {
+        match op {
+            ClaimOp::Add { .. } => "claims.add_claim",
+            ClaimOp::Remove { .. } => "claims.remove_claim",
+        }
+        .into()
+    }
+
+    fn apply(&self, i: &mut ClaimInst, op: &ClaimOp) {
+        self.call(i, op);
+    }
+
+    fn step(&self, i: &mut ClaimInst, m: &mut Self::Model, op: &ClaimOp, cx: &mut StepCtx<Self>) -> Result<bool, Violation> {
+        let x = match op {
+            ClaimOp::Add { iss, .. } => {
+                if *iss == REJECTING {
+                    must(false, "invalid-input-refused", "the issuer rejects the claim")
+                } else {
+                    must(true, "valid-op-accepted", "the issuer accepts the claim (a claim of the same issuer and topic is replaced)")
+                }
+            }
+            ClaimOp::Remove { iss, topic } => {
+                if m.contains_key(&(*iss, *topic)) {
+                    must(true, "valid-op-accepted", "the claim is stored")
+                } else {
+                    must(false, "absent-removal-refused", "no claim of this issuer and topic is stored")
+                }
+            }
+        };
+        let r = self.call(i, op);
+        let ok = r.is_some();
+        check_outcome(ok, &x, op)?;
+        if ok {
+            match op {
+                ClaimOp::Add { iss, topic, var } => {
+                    let want = self.id_of(i, *iss, *topic);
+                    ensure!(r == Some(Some(want)), "claim-id", "add_claim returned a claim id different from the documented id of (issuer {}, topic {})", iss, topic);
+                    m.insert((*iss, *topic), *var);
+                }
+                ClaimOp::Remove { iss, topic } => {
+                    m.remove(&(*iss, *topic));
+                }
+            }
+            self.observe(i, m, cx)?;
+        } else if x.ok == Some(false) {
+            cx.stats.count(&format!("refused.{}", x.oracle), 1);
+        }
+        Ok(ok)
+    }
+
+    fn key(&self, i: &ClaimInst) -> [u8; 32] {
+        envx::storage_digest(&i.e, false)
+    }
+    fn model_digest(&self, m: &Self::Model) -> u64 {
+        dig(m)
+    }
+}
+
+fn claim_worlds(tier: Tier) -> Vec<(Claims, usize)> {
+    let th = tier == Tier::Thorough;
+    vec![(
+        Claims { name: "identity-claims", issuers: if th { vec![0, 1, 2] } else { vec![0, 1] }, topics: vec![1, 2], vars: vec![0, 1] },
+        tier.pick(6, 7),
+    )]
+}
+
+// ==========================================================================================
 
 pub fn run(tier: Tier, r: &mut Runner) {
     let wall = tier.pick(20, 240);
@@ -1245,6 +2261,24 @@ pub fn run(tier: Tier, r: &mut Runner) {
         }
         r.world(&w, &Bounds::new(d, wall));
     }
+    for (w, d) in doc_worlds(tier) {
+        if r.exploring() && w.seeds.iter().any(|n| *n > DIRECT_SEED_ABOVE) && !w.direct_seed_is_faithful() {
+            if let Some(rep) = r.report() {
+                rep.note(&format!(
+                    "{}: SKIPPED — the capacity seed is written directly into storage and the document manager's storage layout no longer matches (a 120-document state built through set_document differs); exact enforcement of MAX_DOCUMENTS was not explored",
+                    w.name
+                ));
+            }
+            continue;
+        }
+        r.world(&w, &Bounds::new(d, wall));
+    }
+    for (w, d) in irs_worlds(tier) {
+        r.world(&w, &Bounds::new(d, wall));
+    }
+    for (w, d) in claim_worlds(tier) {
+        r.world(&w, &Bounds::new(d, wall));
+    }
     if let Some(rep) = r.report() {
         let both = [
             "cti.add_claim_topic",
@@ -1257,12 +2291,18 @@ pub fn run(tier: Tier, r: &mut Runner) {
             "binder.bind_token",
             "binder.unbind_token",
             "binder.bind_tokens",
+            "docs.set_document",
+            "docs.remove_document",
+            "irs.add_identity",
+            "irs.modify_identity",
+            "irs.remove_identity",
+            "irs.recover_identity",
+            "irs.add_country_data_entries",
+            "irs.modify_country_data",
+            "irs.delete_country_data",
+            "claims.add_claim",
+            "claims.remove_claim",
         ];
         rep.require(&both, &both);
     }
-}
-
-#[allow(dead_code)]
-fn _unused(_: Bytes, _: BytesN<32>, _: SString, e: &Env) {
-    e.ledger().sequence();
 }
